@@ -129,8 +129,8 @@ def tlc_model(module, cfg, workers=8, timeout=1800, xmx="12g", extra=(), allow_t
     """Run a TLC model-checking job on spec/<module>.tla with spec/<cfg>.  Returns a dict with
     generated/distinct state counts, `ok`, and the error text if TLC reported one."""
     spec = os.path.join(SPEC, module + ".tla")
-    cfgp = os.path.join(SPEC, cfg)
-    meta = workdir("tlc", "m_%s_%d_%d" % (cfg.replace(".cfg", ""), os.getpid(), int(time.time() * 1000) % 100000), clean=True)
+    cfgp = cfg if os.path.isabs(cfg) else os.path.join(SPEC, cfg)
+    meta = workdir("tlc", "m_%s_%d_%d" % (os.path.basename(cfg).replace(".cfg", ""), os.getpid(), int(time.time() * 1000) % 100000), clean=True)
     env = dict(os.environ)
     env.pop("JAVA_TOOL_OPTIONS", None)
     env["JAVA_TOOL_OPTIONS"] = "-Xss256m"
@@ -163,7 +163,7 @@ def tlc_model(module, cfg, workers=8, timeout=1800, xmx="12g", extra=(), allow_t
     if not ok:
         i = out.find("Error:")
         err = out[i:i + 6000] if i >= 0 else out[-3000:]
-    res = {"module": module, "cfg": cfg, "generated": gen, "distinct": dist, "ok": ok, "timed_out": timed_out, "error": err,
+    res = {"module": module, "cfg": os.path.basename(cfg), "generated": gen, "distinct": dist, "ok": ok, "timed_out": timed_out, "error": err,
            "wall_s": round(time.time() - t0, 1), "output": out}
     if timed_out and not allow_timeout:
         raise ToolError("TLC timeout on %s/%s" % (module, cfg))
